@@ -62,6 +62,8 @@ func (s *StructT) FieldByName(n string) *FieldT {
 type Schema struct {
 	Structs []*StructT
 	Root    *StructT
+	// ExtraRoots get methods M1, M2, ... (request and response type = the root).
+	ExtraRoots []*StructT
 }
 
 func (t *Type) String() string {
@@ -146,7 +148,12 @@ func (s *Schema) IDL() string {
 		}
 		sb.WriteString("}\n\n")
 	}
-	fmt.Fprintf(&sb, "service Svc {\n  %s M(1: %s req),\n}\n", s.Root.Name, s.Root.Name)
+	sb.WriteString("service Svc {\n")
+	fmt.Fprintf(&sb, "  %s M(1: %s req),\n", s.Root.Name, s.Root.Name)
+	for i, r := range s.ExtraRoots {
+		fmt.Fprintf(&sb, "  %s M%d(1: %s req),\n", r.Name, i+1, r.Name)
+	}
+	sb.WriteString("}\n")
 	return sb.String()
 }
 
